@@ -85,9 +85,20 @@ class Model:
 # ------------------------------------------------------------------------------------------------
 
 
+# Sharing of user-owned objects between tenants of one program (C20): None, or
+# {"level": "mesh" | "surface", "reg": {}}. With "mesh" the *same* mesh ndarray (and mesh dict) is handed to
+# every builder asking for the same mesh, as the documented multipoint / drag-polar scripts do; with
+# "surface" the same surface dict object is reused as well.
+SHARE = None
+
+
 def _gen_mesh(wing_type, nx, ny, symmetry, **kw):
     from openaerostruct.geometry.utils import generate_mesh
+    from .core import digest
 
+    key = ("mesh", wing_type, nx, ny, symmetry, digest(kw))
+    if SHARE is not None and key in SHARE["reg"]:
+        return SHARE["reg"][key]
     md = {"num_y": ny, "num_x": nx, "wing_type": wing_type, "symmetry": symmetry}
     md.update(kw)
     out = generate_mesh(md)
@@ -95,6 +106,8 @@ def _gen_mesh(wing_type, nx, ny, symmetry, **kw):
         mesh, twist_cp = out
     else:
         mesh, twist_cp = out, None
+    if SHARE is not None:
+        SHARE["reg"][key] = (md, mesh, twist_cp)
     return md, mesh, twist_cp
 
 
@@ -115,6 +128,11 @@ def _aero_surface(name, mesh, symmetry, twist_cp=None, viscous=True, wave=False,
     if twist_cp is not None:
         s["twist_cp"] = np.array(twist_cp, dtype=float)
     s.update(kw)
+    if SHARE is not None and SHARE.get("level") == "surface":
+        key = ("surf", name, id(mesh))
+        if key in SHARE["reg"]:
+            return SHARE["reg"][key]  # the caller re-applies identical properties to the shared dict
+        SHARE["reg"][key] = s
     return s
 
 
